@@ -187,10 +187,22 @@ impl Holder {
             return Err(Error::KeyBindingJWTRequired);
         }
 
+        // a redacted claim takes the disclosures of the claims nested in it with it
+        let redacted_prefixes = self
+            .disclosure_paths
+            .iter()
+            .filter(|disclosure_path| self.redacted.contains(&disclosure_path.path))
+            .map(|disclosure_path| format!("{}/", disclosure_path.path))
+            .collect::<Vec<_>>();
         let presentation_disclosures = self
             .disclosure_paths
             .iter()
             .filter(|disclosure_path| !self.redacted.contains(&disclosure_path.path))
+            .filter(|disclosure_path| {
+                !redacted_prefixes
+                    .iter()
+                    .any(|prefix| disclosure_path.path.starts_with(prefix))
+            })
             .map(|disclosure_path| disclosure_path.disclosure.disclosure())
             .collect::<Vec<_>>();
 
